@@ -10,24 +10,132 @@ package auth
 //@ import "sync"
 
 // ---- rights compilation (C11): the matchers of a user are exactly those of the CURRENT access strings ------------
-// number of non-empty ';'-separated masks of an access string (uninterpreted: the pattern language is C16)
-//@ spec func nonEmptyMasks(access string) int = uninterpreted
+//@ import "github.com/cnotch/ipchub/utils/scan"
+
+// ---- abstract segmentation of a string by a delimiter (C16) ------------------------------------------------------
+// What utils/scan.Scanner.Scan computes, named: hasDelim(d,s) - s contains the delimiter d; first(d,s) - the text
+// before the first delimiter (all of s without one), trimmed; rest(d,s) - the trimmed text after it. These three are
+// uninterpreted (Scan is string-library code: strings.IndexRune / TrimFunc); everything below is DEFINED from them.
+//@ spec func hasDelim(d scan.Scanner, s string) bool = uninterpreted
+//@ spec func first(d scan.Scanner, s string) string = uninterpreted
+//@ spec func rest(d scan.Scanner, s string) string = uninterpreted
+// number of segments, the tail after i segments, the i-th segment
+//@ spec func nseg(d scan.Scanner, s string) int = rec iteInt(hasDelim(d, s), 1 + nseg(d, rest(d, s)), 1)
+//@ spec func restN(d scan.Scanner, s string, i int) string = rec iteStr(i <= 0, s, rest(d, restN(d, s, i-1)))
+//@ spec func segAt(d scan.Scanner, s string, i int) string = first(d, restN(d, s, i))
+// number of non-empty ';'-separated masks of an access string
+//@ spec func nonEmptyMasks(access string) int = rec iteInt(len(first(scan.Semicolon, access)) != 0, 1, 0) + iteInt(hasDelim(scan.Semicolon, access), nonEmptyMasks(rest(scan.Semicolon, access)), 0)
+//@ extern func (s scan.Scanner) Scan(str string) (advance string, token string, continueScan bool)
+//@   modifies
+//@   ensures sameStr(token, first(s, str)) && continueScan == hasDelim(s, str)
+//@   ensures continueScan ==> sameStr(advance, rest(s, str))
+//@   ensures !continueScan ==> len(advance) == 0
+
+// string-library functions used by the matcher: results named by uninterpreted functions of the arguments
+//@ spec func lower(s string) string = uninterpreted
+//@ spec func trimOf(s string, cutset string) string = uninterpreted
+//@ spec func trimSpaceOf(s string) string = uninterpreted
+//@ spec func splitLen(s string, sep string) int = uninterpreted
+//@ spec func splitAt(s string, sep string, i int) string = uninterpreted
 //@ extern func strings.ToLower(s string) (r string)
 //@   modifies
-// initMatchers appends one compiled matcher per non-empty mask (assumed: scanning is string-library code)
-//@ func initMatchers(access string, destMatcher *[]PathMatcher) ()
+//@   ensures sameStr(r, lower(s))
+//@ extern func strings.Trim(s string, cutset string) (r string)
+//@   modifies
+//@   ensures sameStr(r, trimOf(s, cutset))
+//@ extern func strings.TrimSpace(s string) (r string)
+//@   modifies
+//@   ensures sameStr(r, trimSpaceOf(s))
+// Split with a non-empty separator returns at least one element
+//@ extern func strings.Split(s string, sep string) (r []string)
+//@   modifies
+//@   fresh r
+//@   ensures len(r) == splitLen(s, sep) && 1 <= len(r) && cap(r) == len(r) && forall(i, 0, len(r), sameStr(r[i], splitAt(s, sep, i)))
+// partCount(s)+1 is the number of '/'-separated segments of s (assumed: ties the literal '/' of partCount to the
+// delimiter of pathScanner, and byte counting to the scanner's segmentation)
+//@ func partCount(s string) (n int)
 //@   trusted
+//@   modifies
+//@   ensures n + 1 == nseg(pathScanner, s) && 0 <= n && n < 1<<48
+
+// the normalised path that is matched: trimmed of '/', lower-cased
+//@ spec func normPath(path string) string = lower(trimOf(path, "/"))
+// THE DOCUMENTED LANGUAGE: a pattern (segment list + trailing-wildcard flag) matches a path iff the path has at least
+// as many segments as the pattern - exactly as many without trailing '*' - and every pattern segment is '+' or equals
+// the path segment at its position
+//@ spec func patMatches(m *pathMacher, p string) bool = nseg(pathScanner, p) >= len(m.parts) && (nseg(pathScanner, p) == len(m.parts) || m.wildcardEnd) && forall(j, 0, len(m.parts), "+" == m.parts[j] || segAt(pathScanner, p, j) == m.parts[j])
+
+//@ func (m *pathMacher) Match(path string) (res bool)
+//@   requires m != nil && len(m.parts) <= 1<<30
+//@   modifies
+//@   local i int
+//@   local ok bool
+//@   local advance string
+//@   local count int
+//@   loop 0: modifies
+//@   loop 0: invariant 0 <= i && i <= len(m.parts) && count == nseg(pathScanner, normPath(old(path))) && count >= len(m.parts) && (count == len(m.parts) || m.wildcardEnd)
+//@   loop 0: invariant ok ==> sameStr(advance, restN(pathScanner, normPath(old(path)), i)) && nseg(pathScanner, advance) == count - i
+//@   loop 0: invariant !ok ==> i == count
+//@   loop 0: invariant forall(j, 0, i, "+" == m.parts[j] || segAt(pathScanner, normPath(old(path)), j) == m.parts[j])
+//@   ensures res == patMatches(m, normPath(path))
+
+//@ func (m alwaysMatcher) Match(path string) (res bool)
+//@   modifies
+//@   ensures res
+
+// compilation of one pattern: '*' alone (after trimming spaces) matches everything; otherwise the segments are those
+// of the lower-cased pattern trimmed of '/', a trailing '*' segment becoming the wildcard flag
+//@ spec func maskBody(mask string) string = lower(trimOf(mask, "/"))
+//@ spec func maskWild(mask string) bool = splitAt(maskBody(mask), "/", splitLen(maskBody(mask), "/") - 1) == "*"
+//@ func NewPathMatcher(pathMask string) (res PathMatcher)
+//@   modifies
+//@   fresh res
+//@   ensures trimSpaceOf(pathMask) == "*" ==> typeIs(res, "alwaysMatcher")
+//@   ensures !(trimSpaceOf(pathMask) == "*") ==> typeIs(res, "*pathMacher") && res.(*pathMacher) != nil && res.(*pathMacher).wildcardEnd == maskWild(pathMask)
+//@   ensures !(trimSpaceOf(pathMask) == "*") ==> len(res.(*pathMacher).parts) == splitLen(maskBody(pathMask), "/") - iteInt(maskWild(pathMask), 1, 0)
+//@   ensures !(trimSpaceOf(pathMask) == "*") ==> forall(i, 0, len(res.(*pathMacher).parts), sameStr(res.(*pathMacher).parts[i], splitAt(maskBody(pathMask), "/", i)))
+
+// a right string: one compiled matcher per non-empty ';'-separated mask
+//@ func initMatchers(access string, destMatcher *[]PathMatcher) ()
 //@   requires destMatcher != nil
-//@   modifies *destMatcher
-//@   ensures len(*destMatcher) == old(len(*destMatcher)) + nonEmptyMasks(access) && 0 <= nonEmptyMasks(access) && nonEmptyMasks(access) <= 1<<20
+//@   modifies *destMatcher, anyElems(*destMatcher)
+//@   local continueScan bool
+//@   local advance string
+//@   loop 0: modifies *destMatcher, anyElems(*destMatcher)
+//@   loop 0: invariant continueScan ==> len(*destMatcher) + nonEmptyMasks(advance) == old(len(*destMatcher)) + nonEmptyMasks(access)
+//@   loop 0: invariant !continueScan ==> len(*destMatcher) == old(len(*destMatcher)) + nonEmptyMasks(access)
+//@   loop 0: invariant old(len(*destMatcher)) == 0 ==> matchersOK(*destMatcher)
+//@   ensures len(*destMatcher) == old(len(*destMatcher)) + nonEmptyMasks(access)
+//@   ensures old(len(*destMatcher)) == 0 ==> matchersOK(*destMatcher)
+
+// a path is permitted exactly when at least one matcher of the relevant right matches the space-trimmed path
+//@ spec func matches(m PathMatcher, path string) bool = uninterpreted
+//@ extern func (m PathMatcher) Match(path string) (b bool)
+//@   modifies
+//@   ensures b == matches(m, path)
+//@ spec func rightMatchers(u *User, right AccessRight) []PathMatcher = uninterpreted
+//@ spec func matchersOK(l []PathMatcher) bool = forall(k, 0, len(l), l[k] != nil)
+//@ func (u *User) ValidatePermission(path string, right AccessRight) (res bool)
+//@   requires u != nil && matchersOK(u.pushMatchers) && matchersOK(u.pullMatchers)
+//@   modifies
+//@   local rangeindex int
+//@   local matchers []PathMatcher
+//@   loop 0: modifies
+//@   loop 0: invariant -1 <= rangeindex && rangeindex < len(matchers) && matchersOK(matchers) && forall(j, 0, rangeindex + 1, !matches(matchers[j], trimSpaceOf(old(path))))
+//@   ensures right == PushRight ==> res == exists(j, 0, len(u.pushMatchers), matches(u.pushMatchers[j], trimSpaceOf(path)))
+//@   ensures right == PullRight ==> res == exists(j, 0, len(u.pullMatchers), matches(u.pullMatchers[j], trimSpaceOf(path)))
+//@   ensures right != PullRight && right != PushRight ==> !res
 
 // after init (also when re-run by CopyFrom) nothing is left over from earlier rights: the number of matchers
 // equals the number of masks of the access string as it is now; an administrator with an empty right gets "*"
 //@ func (u *User) init() (err error)
 //@   requires u != nil && len(u.pushMatchers) <= 1<<20 && len(u.pullMatchers) <= 1<<20
-//@   modifies u.Name, u.PullAccess, u.PushAccess, u.pushMatchers, u.pullMatchers
+//@   modifies u.Name, u.PullAccess, u.PushAccess, u.pushMatchers, u.pullMatchers, anyElems(u.pushMatchers)
 //@   ensures err == nil
 //@   ensures len(u.pushMatchers) == nonEmptyMasks(u.PushAccess) && len(u.pullMatchers) == nonEmptyMasks(u.PullAccess)
+// (non-nil elements are proved for the list compiled last only: the type-based frame anyElems() of the second
+// initMatchers call also covers the first list's backing array)
+//@   ensures matchersOK(u.pullMatchers)
 //@   ensures u.Admin && old(len(u.PullAccess)) == 0 ==> len(u.PullAccess) == 1 && u.PullAccess[0] == 0x2a
 //@   ensures u.Admin && old(len(u.PushAccess)) == 0 ==> len(u.PushAccess) == 1 && u.PushAccess[0] == 0x2a
 //@   ensures !(u.Admin && old(len(u.PullAccess)) == 0) ==> sameStr(u.PullAccess, old(u.PullAccess))
@@ -36,7 +144,7 @@ package auth
 // update: the password changes only when asked; the rights are those of src, compiled afresh
 //@ func (u *User) CopyFrom(src *User, withPassword bool) ()
 //@   requires u != nil && src != nil && len(u.pushMatchers) <= 1<<20 && len(u.pullMatchers) <= 1<<20
-//@   modifies u.Password, u.Admin, u.PushAccess, u.PullAccess, u.Name, u.pushMatchers, u.pullMatchers
+//@   modifies u.Password, u.Admin, u.PushAccess, u.PullAccess, u.Name, u.pushMatchers, u.pullMatchers, anyElems(u.pushMatchers)
 //@   ensures withPassword ==> sameStr(u.Password, old(src.Password))
 //@   ensures !withPassword && u != src ==> sameStr(u.Password, old(u.Password))
 //@   ensures u.Admin == old(src.Admin)
